@@ -19,7 +19,7 @@ def run(rep):
     # 1. model checking: the array store as a state machine (invariants), then the laws on every enumerated case
     sm = tlc.run(rep.pid, "C17", SM_CFG, env={"TIER": rep.tier}, timeout=900, tag="sm")
     rep.add_tlc("C17.ArrayStateMachine", sm)
-    res = tlc.run(rep.pid, "C17", ENUM_CFG, env={"TIER": rep.tier}, timeout=2400, tag="enum", heap="12g")
+    res = tlc.run(rep.pid, "C17", ENUM_CFG, env={"TIER": rep.tier}, timeout=2400, tag="enum", heap="6g")
     rep.add_tlc("C17.Enum+Laws", res)
     seen, calls, scripts = set(), [], []
     import hashlib
@@ -58,12 +58,12 @@ def run(rep):
     rep.spaces.append({"space": "seeded random histories (arrays: <= 20 calls on three shared arrays; typed arrays: <= 20 events on two buffers)",
                        "cases": len(hist) + len(tah), "complete": False})
     # 2./3. replay into the engine and judge in TLC, batch by batch (bounded memory)
-    BATCH = 60000
+    BATCH = 60000 if quick else 30000
     rep.notes["engine_wall_s"] = 0.0
     rep.notes["judge_wall_s"] = [0.0, 0.0]
     rep.evaluations = 0
     for lo in range(0, len(allc), BATCH):
-        process(rep, allc[lo:lo + BATCH], lo // BATCH)
+        process(rep, allc[lo:lo + BATCH], None if quick else 8)
     rep.exhaustive = True
     # methods the engine offers that the specification does not cover yet (reported, not judged)
     names = ["at", "fill", "keys", "values", "entries", "flat", "flatMap", "findLast", "findLastIndex", "copyWithin", "toSorted", "toReversed",
@@ -87,7 +87,7 @@ def run(rep):
                         "sort with an inconsistent comparator: any permutation with undefined last"]
 
 
-def process(rep, batch, k):
+def process(rep, batch, shards):
     t0 = time.time()
     results = engine.run_cases(rep.pid, batch, driver=DRIVER, tag="eng")
 
@@ -118,9 +118,9 @@ def process(rep, batch, k):
             trecs.append({"id": c["id"], "ty": c["ty"], "store": c.get("store", []), "evs": evs})
     if len(crecs) + len(trecs) != len(batch):
         raise Machinery("engine returned %d results for %d cases" % (len(results), len(batch)))
-    verdicts, st, tr, wall = tlc.judge(rep.pid, "C17", crecs, JUDGE_CFG, tag="judge_calls")
+    verdicts, st, tr, wall = tlc.judge(rep.pid, "C17", crecs, JUDGE_CFG, tag="judge_calls", shards=shards)
     rep.add_judge(len(crecs), st, tr)
-    tverd, st2, tr2, wall2 = tlc.judge(rep.pid, "C17", trecs, TRACE_CFG, tag="judge_traces")
+    tverd, st2, tr2, wall2 = tlc.judge(rep.pid, "C17", trecs, TRACE_CFG, tag="judge_traces", shards=shards)
     rep.add_judge(len(trecs), st2, tr2)
     rep.notes["judge_wall_s"] = [round(rep.notes["judge_wall_s"][0] + wall, 1), round(rep.notes["judge_wall_s"][1] + wall2, 1)]
     rep.evaluations += len(crecs) + sum(len(t["evs"]) for t in trecs)
